@@ -33,7 +33,10 @@ OPTIONS = {
 }
 
 
-def install(files):
+def install(files, cwd_listed=False):
+    """cwd_listed: the working directory is itself one of the directories
+    jupyter lists (e.g. running from ~/.jupyter): it then occurs twice in the
+    search path and must still win."""
     import nbdime.config as nc
     from traitlets.config.loader import ConfigFileNotFound
 
@@ -56,7 +59,7 @@ def install(files):
             return "CWD"
     saved = (nc.JSONFileConfigLoader, nc.jupyter_config_path, nc.os)
     nc.JSONFileConfigLoader = Loader
-    nc.jupyter_config_path = lambda: ["USER", "SYS"]
+    nc.jupyter_config_path = (lambda: ["USER", "CWD", "SYS"]) if cwd_listed else (lambda: ["USER", "SYS"])
     nc.os = FakeOS()
     return saved
 
@@ -97,7 +100,9 @@ def make_resolution(ep, option, maxslots=3, props=("C19",), known=()):
             d, s = slots[i]
             files.setdefault(d, {}).setdefault(s, {})[option] = E.int("v_%s_%s" % (d, s))
         dflt = defaults_of(ep).get(option, M.MISSING)
-        saved = install(files)
+        cwd_listed = bool(E.choice("cwd-listed", 2))
+        E.goal("cwd-also-a-jupyter-dir", cwd_listed and any(slots[i][0] == "CWD" for i in chosen))
+        saved = install(files, cwd_listed)
         try:
             got = nc.build_config(ep)
         except Exception as ex:  # noqa
@@ -165,6 +170,9 @@ PARSERS = {
 FLAGS = {"details": (["-D"], False), "port": (["--port", "4321"], 4321),
          "merge_strategy": (["--merge-strategy", "use-local"], "use-local"),
          "color_words": (["--color-words"], True), "log_level": (["--log-level", "ERROR"], "ERROR")}
+# flags given explicitly with the value that is also the built-in default
+FLAGS_DEFAULT = {"port": (["--port", "0"], 0), "merge_strategy": (["--merge-strategy", "inline"], "inline"),
+                 "log_level": (["--log-level", "INFO"], "INFO")}
 
 
 def make_parser(ep, option, maxslots=2, props=("C19",), known=()):
@@ -178,20 +186,21 @@ def make_parser(ep, option, maxslots=2, props=("C19",), known=()):
         slots = slots_for(ep, option, foreign=False)
         combos = [c for k in range(0, maxslots + 1) for c in itertools.combinations(range(len(slots)), k)]
         chosen = combos[E.choice("slots", len(combos))]
-        with_flag = E.choice("flag", 2)
+        with_flag = E.choice("flag", 3 if option in FLAGS_DEFAULT else 2)
+        flagspec = FLAGS_DEFAULT[option] if with_flag == 2 else FLAGS[option]
         files = {}
         for i in chosen:
             d, s = slots[i]
             files.setdefault(d, {}).setdefault(s, {})[option] = E.int("v_%s_%s" % (d, s))
         dflt = defaults_of(ep).get(option, M.MISSING)
-        argv = (FLAGS[option][0] if with_flag else []) + positional
+        argv = (flagspec[0] if with_flag else []) + positional
         saved = install(files)
         import logging
         lvl = logging.getLogger().level
         try:
             parser = getattr(mod, fname)()
             parser.prog = ep
-            if with_flag and FLAGS[option][0][0] not in parser._option_string_actions:
+            if with_flag and flagspec[0][0] not in parser._option_string_actions:
                 E.goal("entry-point-has-no-such-flag")
                 return
             ns, _ = parser.parse_known_args(argv)
@@ -206,9 +215,10 @@ def make_parser(ep, option, maxslots=2, props=("C19",), known=()):
             logging.disable(logging.CRITICAL)
         got = getattr(ns, option, M.MISSING)
         want = M.effective(ep, files, option, default=dflt,
-                           flag=FLAGS[option][1] if with_flag else M.MISSING)
-        E.nontrivial(with_flag == 1 and len(chosen) > 0)
+                           flag=flagspec[1] if with_flag else M.MISSING)
+        E.nontrivial(with_flag >= 1 and len(chosen) > 0)
         E.goal("flag-over-config", with_flag == 1 and len(chosen) > 0)
+        E.goal("default-valued-flag-over-config", with_flag == 2 and len(chosen) > 0)
         info = "entry point %s option %s flag %r config %r: parsed %r, documented rule gives %r" % (
             ep, option, bool(with_flag), [slots[i] for i in chosen], describe(got), describe(want))
         if want is M.MISSING or want is None:
